@@ -21,6 +21,12 @@ def run(ctx, keep, rule):
             ("ModfileDirectiveGen", "ModfileDirectiveGen_3" if q else "ModfileDirectiveGen_4", 50000, "modsyntax"),
             ("ModfileGen", "ModfileGen_mod_wf", 400, "modsyntax"),
             ("ModfileGen", "ModfileGen_work_wf", 200, "modsyntax")]
+    if keep == "c02:":
+        # the quoting rule: every string of up to 3/4 characters over 25 classes (and 5 over 10), OneToken as invariant,
+        # MustQuote/AutoQuote compared, the string pushed through AddUse/AddReplace + Format + strict parse
+        gens.append(("ModfileQuoteGen", "ModfileQuoteGen_3" if q else "ModfileQuoteGen_4", 10000, "modsyntax"))
+        if not q:
+            gens.append(("ModfileQuoteGen", "ModfileQuoteGen_s5", 100000, "modsyntax"))
     for module, cfg, floor, world in gens:
         r = ctx.tlc(module, cfg, name=cfg, workers=16, timeout=3400, heap="16g")
         rep = ctx.vh(["replay", world, r.outfile], timeout=3400)
